@@ -172,10 +172,13 @@ def _run_shard(task):
         mod = importlib.import_module(mod_name)
         clause = [c for c in mod.CLAUSES if c.name == cname][0]
         state = dict(first_fail_t=None, best=None, capped=False)
+        # every shard evaluates a few cases even when it only starts after the soft wall deadline (queued behind others on a
+        # loaded machine), so that no clause ends up unevaluated
+        floor_cases = 3 if clause.enumerate is not None else 20
 
         def body(case):
             now = time.time()
-            if state['capped'] or (state['first_fail_t'] is None and now > deadline):
+            if state['capped'] or (state['first_fail_t'] is None and now > deadline and res['evaluations'] >= floor_cases):
                 res['skipped_budget'] += 1
                 return
             if state['first_fail_t'] is not None and now - state['first_fail_t'] > shrink_cap:
@@ -230,8 +233,8 @@ def _run_shard(task):
             strat = clause.strategy()
             chunk = max(25, min(400, -(-n // 4)))
             done, k = 0, 0
-            while done < n and state['best'] is None and time.time() <= deadline:
-                m = min(chunk, n - done)
+            while done < n and state['best'] is None and (time.time() <= deadline or res['evaluations'] < floor_cases):
+                m = min(chunk, n - done) if time.time() <= deadline else min(floor_cases + 5, n - done)
                 stk = settings(st, max_examples=m)
                 test = hypothesis.seed(derive_seed(seed, 'slice', k))(stk(given(strat)(body)))
                 try:
